@@ -176,7 +176,8 @@ type Endpoint struct {
 	DialsClosed  atomic.Int64
 	DroppedFull  atomic.Int64
 	WriteErr     func(buf []byte, to memberlist.Address) error // fault injection: returned instead of sending
-	ShutdownGate  chan struct{} // if set, Shutdown blocks until it is closed
+	ShutdownGate chan struct{}                                 // if set, Shutdown blocks until it is closed
+	admit        sync.RWMutex
 }
 
 var _ memberlist.NodeAwareTransport = (*Endpoint)(nil)
@@ -216,7 +217,11 @@ func (e *Endpoint) Shutdown() error {
 	if g := e.ShutdownGate; g != nil {
 		<-g // tearing sockets down takes time; until it is done the transport still works
 	}
+	// admission of a datagram and closing are mutually exclusive: once Shutdown has returned
+	// no write can have been admitted "just before"
+	e.admit.Lock()
 	e.closed.Store(true)
+	e.admit.Unlock()
 	return nil
 }
 
@@ -242,6 +247,8 @@ func (e *Endpoint) WriteToAddress(b []byte, a memberlist.Address) (time.Time, er
 	n := e.net
 	buf := append([]byte(nil), b...)
 	ev := &PacketEvent{At: now, From: e.Addr, To: a.Addr, ToName: a.Name, Buf: buf}
+	e.admit.RLock()
+	defer e.admit.RUnlock()
 	if e.closed.Load() {
 		e.WritesClosed.Add(1)
 		ev.Closed = true
